@@ -1,4 +1,5 @@
 pub mod autoutil;
+pub mod deep;
 pub mod rectx;
 pub mod selftest;
 pub mod c01;
@@ -69,6 +70,15 @@ fn run_inner(p: &Params, rep: &mut Report) -> bool {
 }
 
 pub fn replay(prop: &str, kind: &str, text: &str, seed: u64, rep: &mut Report) -> bool {
+    if kind == "deep" {
+        let mut it = text.split_whitespace();
+        if let (Some(k), Some(n)) = (it.next(), it.next().and_then(|x| x.parse::<usize>().ok())) {
+            let expect = if k == "auto-chain" { deep::expect_auto_chain(n) } else { deep::expect_re_literal(n) };
+            deep::probe(rep, k, n, &expect, "replay", seed);
+            return true;
+        }
+        return false;
+    }
     if kind == "shard" {
         // "shard K of N seed S": re-run that whole shard (quick tier)
         let nums: Vec<u64> = text.split_whitespace().filter_map(|t| t.parse().ok()).collect();
